@@ -660,6 +660,10 @@ SPECS["C03"]["parts"].append(router_part("query-sizes", "TestVerifC03Sizes", ["z
 # what one DoH reply leaves behind in pooled buffers must not become (part of) the next exchange's answer
 SPECS["C04"]["parts"].append([dict(p) for p in SPECS["C01"]["parts"] if p["name"] == "doh-replies"][0])
 
+# a query that a stream listener refuses for a wrong reason (a per-connection in-flight count that never comes back) gets REFUSED where
+# C03 promises an answer: C13's framing exploration (limits, second batch on the same connection) decides that clause
+SPECS["C03"]["parts"].append([dict(p) for p in SPECS["C13"]["parts"] if p["name"] == "framing"][0])
+
 # --------------------------------------------------------------------------------------------
 # Properties not (yet) claimed. Kept current: every property without a SPECS entry must be here.
 NOT_APPLICABLE = {
